@@ -63,9 +63,10 @@ def traceFrom (sin cos asin sqrt : α → α) (bot vel : Nat → α) (xr p : α)
 def trace (sin cos asin sqrt : α → α) (n : Nat) (bot vel : Nat → α) (xr theta0 : α) : Ray α :=
   traceFrom sin cos asin sqrt bot vel xr (sin theta0 / vel 0) n 0 (0.0 : α) (0.0 : α) [] (0.0 : α) (0.0 : α)
 
-/-- the code reports travel time and length only for rays that reach the receiver line above the
-    top of the last (buffer) layer -/
-def reported (r : Ray α) (topLast : α) : Bool := r.status == .reached && decide (r.z ≤ topLast)
+/-- the code reports travel time and length for every ray that reaches the receiver line, in
+    whichever layer it ends (the deepest layer included; `topLast`, the top of that layer, is kept
+    in the interface for the driver) -/
+def reported (r : Ray α) (_topLast : α) : Bool := r.status == .reached
 end
 
 /-- path length spent in layer `j` -/
